@@ -190,10 +190,34 @@ Definition c10_no_strand (c : hcase) : bool :=
   (negb (h_flushed c) ||
    let '(sc, ss) := last_snaps (snap_of flow0, snap_of flow0) (h_steps c) in snap_empty sc && snap_empty ss).
 
+(* ... and measured against the RECEIVER's own ledger (what it granted, computed from the trace alone): no
+   queue head fits both of the receiver's windows *)
+Definition head_blocked_led (l : wled) (s : ssnap) : bool :=
+  let '(id, _, q) := s in
+  match q with
+  | [] => true
+  | (_, z, _, _) :: _ => (l_conn l <? z)%Z || (led_window l id <? z)%Z
+  end.
+Fixpoint strand_led (lC lS : wled) (prev : snap * snap) (tr : list tstep) (steps : list ostep) : bool :=
+  match tr, steps with
+  | t :: tr', o :: r =>
+      let lC' := fst (wl_step Cl lC t) in
+      let lS' := fst (wl_step Sv lS t) in
+      let sc := eff (fst prev) (o_snapC o) in
+      let ss := eff (snd prev) (o_snapS o) in
+      match o_status o with
+      | Ok => forallb (head_blocked_led lC') (sn_streams sc) && forallb (head_blocked_led lS') (sn_streams ss)
+      | _ => true
+      end && strand_led lC' lS' (sc, ss) tr' r
+  | _, _ => true
+  end.
+Definition c10_no_strand_led (c : hcase) : bool :=
+  strand_led wled0 wled0 (snap_of flow0, snap_of flow0) (trace_of c) (h_steps c).
+
 (* 1 fidelity, 2 connection frames, 3 a conforming frame was refused, 4 stranding *)
 Definition c10_failures (c : hcase) : list N :=
   (if c10_fidelity c then [] else [1]) ++ (if c10_conn c then [] else [2]) ++
-  (if c10_accepts c then [] else [3]) ++ (if c10_no_strand c then [] else [4]).
+  (if c10_accepts c then [] else [3]) ++ (if c10_no_strand c && c10_no_strand_led c then [] else [4]).
 Definition c10_prop_ok (c : hcase) : bool := match c10_failures c with [] => true | _ => false end.
 
 (* indices (from 0) of the cases on which f fails *)
